@@ -200,6 +200,9 @@ public:
     CXX20_REQUIRES(ReturnsFuture<Fn, T>)
     shared_future<T> &operator<<(Fn &&fn) noexcept {
         _ptr->operator <<(std::forward<Fn>(fn));
+        //same duties as the constructor: keep the state alive while it is pending, synchronize with a resolver that already finished
+        if (_ptr->pending()) _ptr->resolve_tracer.charge(_ptr);
+        else std::atomic_thread_fence(std::memory_order_acquire);
         return *this;
     }
 
